@@ -461,6 +461,16 @@ def readBack (cfg : ReadCfg) (ls : List Line) : Option ReadSkel := (parseSwc ls)
 
 def metaGet (m : List (String × String)) (k : String) : Option String := (m.find? (fun kv => kv.1 == k)).map (·.2)
 
+/-! ### integer width of the ID columns (`SwcReader.read_dataframe`) -/
+
+/-- `np.iinfo(int<b>).min <= lo and hi <= np.iinfo(int<b>).max` -/
+def fitsBits (b : Nat) (lo hi : Int) : Bool := decide (-((2 : Int) ^ (b - 1)) ≤ lo) && decide (hi < (2 : Int) ^ (b - 1))
+
+/-- The width `node_id` / `parent_id` are cast to for `precision=p` when their values span `lo..hi`: the first of the requested
+width and the translator's `Gen.Swc.idWidening` (32, 64) that holds them, the last candidate when none does. -/
+def idBits (p : Nat) (lo hi : Int) : Nat :=
+  ((p :: Gen.Swc.idWidening).find? fun b => fitsBits b lo hi).getD ((p :: Gen.Swc.idWidening).getLast?.getD p)
+
 /-! ### source kinds (`BaseReader.read_any*`): which parser every source ends in -/
 
 /-- The methods without an entry of their own that are reachable from `m` in a call table (`fuel` bounds the depth). -/
